@@ -138,4 +138,50 @@ def firstLetterOf (alpha : Char → Bool) (toks : List (Str × Nat)) : Str :=
   | none => []
   | some t => if t.1.head? = some '\\' ∧ t.1 ≠ ['\\'] then ['{'] ++ t.1 ++ ['}'] else t.1
 
+/-! ### width (reference for `bibtex_width` / `width$`), without the scanner
+
+"This function takes the literal literally; that is, it assumes each character in the string is to
+be printed as is, regardless of whether the character has a special meaning to TeX, except that
+special characters (even without their right braces) are handled specially" (bibtex.web, `width$`).
+One pass over the characters with a brace counter: outside a special character EVERY character adds
+its own width — braces and backslashes included, at any brace level; a `{` at brace level 0 that is
+immediately followed by a backslash opens a special character, which extends to the matching `}`
+(or to the end of the string).  What the TEXT of a special character adds is pybtex's rule, not
+BibTeX's (recorded finding `C03-width-special-char-contents`): every character behind the backslash
+and the character after it, braces excepted; its own two braces are counted and 1000 ("two braces")
+is taken off again. -/
+
+inductive WidthMode where
+  | norm (d : Nat)
+  /-- inside a special character: `k` braces open (its own included), `seen` characters of its text passed -/
+  | spec (k : Nat) (seen : Nat)
+
+def widthPass (w : Char → Int) : WidthMode → Str → Int
+  | .norm _, [] => 0
+  | .spec _ _, [] => w '}'
+  | .norm d, c :: r =>
+    if c = '{' then
+      (if d = 0 ∧ r.head? = some '\\' then w '{' - 1000 + widthPass w (.spec 1 0) r
+       else w '{' + widthPass w (.norm (d + 1)) r)
+    else if c = '}' then w '}' + widthPass w (.norm (d - 1)) r
+    else w c + widthPass w (.norm d) r
+  | .spec k seen, c :: r =>
+    if c = '{' then widthPass w (.spec (k + 1) (seen + 1)) r
+    else if c = '}' then
+      (if k ≤ 1 then w '}' + widthPass w (.norm 0) r else widthPass w (.spec (k - 1) (seen + 1)) r)
+    else (if seen < 2 then 0 else w c) + widthPass w (.spec k (seen + 1)) r
+
+/-- the width of a string, scanner-free -/
+def widthOnePass (w : Char → Int) (s : Str) : Int := widthPass w (.norm 0) s
+
+/-- no special character: no `{` at brace level 0 is immediately followed by a backslash -/
+def noSpecialFrom : Nat → Str → Bool
+  | _, [] => true
+  | d, c :: r =>
+    if c = '{' then !(d = 0 ∧ r.head? = some '\\') && noSpecialFrom (d + 1) r
+    else if c = '}' then noSpecialFrom (d - 1) r
+    else noSpecialFrom d r
+
+def noSpecial (s : Str) : Bool := noSpecialFrom 0 s
+
 end Pybtex.Spec
